@@ -98,7 +98,17 @@ def rule_dir_tree(ctx):
     init = [(s, v) for s, v in ass if s.bb not in loops]
     inl = [(s, v) for s, v in ass if s.bb in loops]
     ctx.check(len(init) == 1 and init[0][1] == 0, 'flag', 'recurse:keep-initialised-false', 'keep starts as false', 'keep initialisation: %s' % [(s.loc(), v) for s, v in init])
-    ctx.check(bool(inl) and all(v == 1 for _s, v in inl), 'flag', 'recurse:keep-only-set-true',
+    def monotone(site, v):
+        if v == 1:
+            return True
+        st = site.stmt if not site.is_term else None
+        if st and st['s'] == 'assign' and st['rv']['r'] == 'bin' and st['rv']['op'] == 'BitOr':
+            for o in (st['rv']['a'], st['rv']['b']):
+                pl = o.get('c') or o.get('m')
+                if pl == [keep]:
+                    return True   # keep |= x
+        return False
+    ctx.check(bool(inl) and all(monotone(s_, v) for s_, v in inl), 'flag', 'recurse:keep-only-set-true',
               'inside the loop keep is only ever set to the constant true (sticky OR over all entries)',
               'inside the directory loop `keep` is assigned %s: the result must be "some entry was kept", not the verdict of the last '
               'entry - otherwise a directory holding a live point is removed when the entry listed last is expired'
